@@ -11,6 +11,7 @@ import (
 	"strings"
 	"sync"
 	"time"
+	"unsafe"
 )
 
 // PointRec records one decision point of an execution.
@@ -360,11 +361,66 @@ var YieldsOn bool
 var Work uint64
 
 // Tick counts one loop iteration of library code (inserted by the overlay in every loop body).
-func Tick() { Work++ }
+func Tick() {
+	Work++
+	if ProfOn && profLast != nil {
+		profLast.n++
+	}
+}
+
+// Work profile (single-threaded users only: C04): which library function the units of work since
+// the last ProfReset were spent in. A loop iteration is attributed to the function entered last.
+var ProfOn bool
+
+type profSlot struct {
+	name  string
+	epoch uint32
+	n     uint32
+}
+
+var (
+	prof      [512]profSlot
+	profEpoch uint32 = 1
+	profLast  *profSlot
+)
+
+// ProfReset starts a new measurement.
+func ProfReset() { profEpoch++; profLast = nil }
+
+// ProfTop names the function with the most units of work since the last ProfReset.
+func ProfTop() (string, int) {
+	best, n := "", 0
+	for i := range prof {
+		if prof[i].epoch == profEpoch && int(prof[i].n) > n {
+			best, n = prof[i].name, int(prof[i].n)
+		}
+	}
+	return best, n
+}
+
+func profHit(name string) {
+	h := (uintptr(unsafe.Pointer(unsafe.StringData(name))) >> 3) & 511
+	for k := uintptr(0); k < 16; k++ {
+		sl := &prof[(h+k)&511]
+		if sl.epoch != profEpoch {
+			sl.name, sl.epoch, sl.n = name, profEpoch, 1
+			profLast = sl
+			return
+		}
+		if unsafe.StringData(sl.name) == unsafe.StringData(name) {
+			sl.n++
+			profLast = sl
+			return
+		}
+	}
+}
 
 // Yield is a scheduling point without a synchronisation object.
 func Yield(name string) {
 	Work++
+	if ProfOn {
+		profHit(name)
+	}
 	if cur == nil || !YieldsOn || cur.aborted {
 		return
 	}
